@@ -196,6 +196,29 @@ def gen(seed, ident_base=1000) -> dict:
     }
 
 
+SAT_PROGRAMS = [
+    # two threads x three operations: operation-level interleavings sampled to saturation (measured, reported)
+    ([["scope", [["DEFAULT_SCHEMA", "s1"]], [["read", "DEFAULT_SCHEMA"]], False], ["read", "DEFAULT_SCHEMA"]],
+     [["scope", [["DEFAULT_SCHEMA", "s2"]], [["read", "DEFAULT_SCHEMA"]], True], ["read", "DEFAULT_SCHEMA"]]),
+    ([["bad", [["DEFAULT_SCHEMA", "x"], ["UNKNOWN", 1]]], ["read", "DEFAULT_SCHEMA"], ["read", "TSQL_NO_SEMICOLON"]],
+     [["scope", [["TSQL_NO_SEMICOLON", "yes"]], [["read", "TSQL_NO_SEMICOLON"], ["read", "DEFAULT_SCHEMA"]], False]]),
+    ([["scope", [["DEFAULT_SCHEMA", "a"]], [["nested", [["DEFAULT_SCHEMA", "b"]], []], ["read", "DEFAULT_SCHEMA"]], False]],
+     [["read", "DEFAULT_SCHEMA"], ["scope", [["DEFAULT_SCHEMA", ""]], [["read", "DEFAULT_SCHEMA"]], False]]),
+    ([["assign", "DEFAULT_SCHEMA", "z"], ["read", "DEFAULT_SCHEMA"], ["scope", [["DIRECTORY", "d"]], [], False]],
+     [["scope", [["DIRECTORY", "e"]], [["read", "DIRECTORY"]], True], ["read", "DIRECTORY"], ["read", "DEFAULT_SCHEMA"]]),
+]
+
+
+def saturation_specs(seed: int, per_program: int) -> list[dict]:
+    out = []
+    for pi, (a, b) in enumerate(SAT_PROGRAMS):
+        for k in range(per_program):
+            out.append({"seed": f"{seed}:sat:{pi}:{k}", "ident_base": 1000 * (len(out) + 1), "env0": {"DEFAULT_SCHEMA": "envs"}, "operator": [],
+                        "threads": [{"prog": a, "after": None, "reuse": False}, {"prog": b, "after": None, "reuse": False}],
+                        "sched": "random", "line": False, "final_probe": False, "sat": pi})
+    return out
+
+
 def plan(seed: int, tier: str) -> list[dict]:
     master = stream(seed, "c15-plan")
     nruns = {"quick": 14_000, "thorough": 400_000}[tier]
@@ -210,6 +233,9 @@ def plan(seed: int, tier: str) -> list[dict]:
             specs.append(gen(rs, ident_base=1000 * (k + 1)))
         # a handful of hash seeds: zygote start is 1-3 s, so bucket them
         units.append({"key": {"hash_seed": hs % 8}, "specs": specs, "wall_s": 120.0})
+    sat = saturation_specs(seed, {"quick": 400, "thorough": 2000}[tier])
+    for i in range(0, len(sat), 400):
+        units.append({"key": {"hash_seed": 0}, "specs": sat[i:i + 400], "wall_s": 120.0})
     return units
 
 
@@ -339,8 +365,12 @@ def run_one(spec: dict) -> dict:
                 t.idx,
             )
 
+    opseq = []  # thread index at every operation-level yield point, in global order
+
     def do_ops(t, ops, in_scope):
         for op in ops:
+            t.ctx["nops"] = t.ctx.get("nops", 0) + 1
+            opseq.append(t.idx)
             sched.yield_point("op", op[0])
             kind = op[0]
             if kind == "read":
@@ -555,6 +585,16 @@ def run_one(spec: dict) -> dict:
         "nontrivial": bool(w.probes),
         "log_digest": digest([w.events, sched.schedule]),
     }
+    if spec.get("sat") is not None:
+        # operation-level interleaving = the order in which the threads' operations were logged
+        # the interleaving = which thread's operation ran k-th (decided at the operation-level yield points)
+        import math
+
+        execd = [e[1] for e in w.events if e[2] in ("read", "assign", "bad", "enter", "nested", "raise")]
+        order = "".join(str(x) for x in execd)
+        na = sched.threads[0].ctx.get("nops", 0)
+        nb = sched.threads[1].ctx.get("nops", 0)
+        res["extra"] = {f"sat|{spec['sat']}|{math.comb(na + nb, na)}|{order}": 1}
     if w.violation:
         res["violation"] = w.violation
         sp = dict(spec)
